@@ -879,6 +879,8 @@ def gen_fields(repo):
     out.append("def serdeKeys : List (String × List String) := [")
     out.append(",\n".join('  ("%s", %s)' % (n, norm_list(models[n].serde_keys())) for n in sorted(models)))
     out.append("]\n")
+    out.append("/-- (struct, field) stored as a bare length (`with = \"numeric_serialize\"`) -/")
+    out.append("def numericFields : List (String × String) := [%s]\n" % ", ".join('("%s", "%s")' % (n, f) for n in sorted(models) for f, _, mode in models[n].fields if mode and mode[0] == "with"))
     out.append("/-- struct name ↦ all fields -/")
     out.append("def structFields : List (String × List String) := [")
     out.append(",\n".join('  ("%s", %s)' % (n, norm_list([f for f, _, _ in models[n].fields])) for n in sorted(models)))
